@@ -786,6 +786,40 @@ func (f *fn) assign(s *ast.AssignStmt, e *env, ind int) string {
 		}
 		return b.String()
 	}
+	if len(s.Rhs) == len(s.Lhs) && len(s.Lhs) > 1 && (s.Tok == token.DEFINE || s.Tok == token.ASSIGN) {
+		// a, b = x, y: all right-hand sides are evaluated (left to right) before any variable is assigned
+		var ids []*ast.Ident
+		for _, l := range s.Lhs {
+			id, ok := l.(*ast.Ident)
+			if !ok {
+				f.fail(s, "parallel assignment to something that is not a variable")
+			}
+			ids = append(ids, id)
+		}
+		var b strings.Builder
+		var tmps []string
+		var tys []*ty
+		for i, r := range s.Rhs {
+			var want *ty
+			if old, ok := e.vars[ids[i].Name]; ok {
+				want = old.t
+			}
+			v := f.expr(r, e, want)
+			b.WriteString(f.emitBinds(v.binds, ind))
+			t := f.newTmp()
+			b.WriteString(ln(ind, fmt.Sprintf("let %s : %s := %s", t, v.t.lean(), v.text)))
+			tmps = append(tmps, t)
+			tys = append(tys, v.t)
+		}
+		for i, id := range ids {
+			if s.Tok == token.DEFINE {
+				b.WriteString(f.declare(id, tys[i], tmps[i], e, ind))
+			} else {
+				b.WriteString(f.setVar(id, tys[i], tmps[i], e, ind))
+			}
+		}
+		return b.String()
+	}
 	f.fail(s, "parallel assignment")
 	return ""
 }
@@ -1329,7 +1363,8 @@ func (f *fn) rangeStmt(s *ast.RangeStmt, e *env, ind int, restK cont) string {
 	if se, ok := unparen(baseX).(*ast.SliceExpr); ok {
 		baseX = se.X
 	}
-	if mentions(baseX, carried) {
+	if mentions(baseX, carried) && vn != "" {
+		// (without a value variable only the LENGTH of the slice is used, and that is taken once, before the loop: `_xs`)
 		bad("the body writes the slice it ranges over")
 	}
 	inner := e.push()
